@@ -219,7 +219,7 @@ def run(ctx):
                        "a usable row plus an extra row with zero major CN counts as 'exactly one row with a positive major "
                        "copy number' (the statement's first clause) and is kept"]
     shards = 16
-    tasks = [{"seed": ctx.seed, "shard": i, "count": 13 if quick else 190, "reject": 3} for i in range(shards)]
+    tasks = [{"seed": ctx.seed, "shard": i, "count": 13 if quick else 800, "reject": 3} for i in range(shards)]
     ctx.map("checks.c17", "load_task", tasks, timeout=3000)
     if ctx.counters.get("permutations_compared", 0) < 200:
         ctx.inconc("too few permutations compared")
